@@ -3,10 +3,11 @@
    nat stay the extracted inductive types). *)
 From Coq Require Import ZArith List Bool.
 From Coq Require Extraction ExtrOcamlBasic.
-From Cntgs Require Import Base Layout Mem Vector World.
+From Cntgs Require Import Base Layout Mem Vector Proxy World.
 Extraction Language OCaml.
 Extraction "model.ml"
   align64 lowbit64 tr_align64 align_up lowbit tr_align
   wf_plist largest SA trails prev_tr next_al asz esize needed units needed_grow_fixed
   place first_align counts
+  runs_asg runs_swp runs_eq runs_lex padfree
   run Z.add Z.mul Z.div Z.modulo Z.opp Z.abs Z.sub Z.ltb Z.eqb.
